@@ -11,11 +11,16 @@ EXTENDS Naturals, Sequences, FiniteSets, TLC, Json, SequencesExt
 
 \* methods of the carrier service (harness/callrun.py)
 MethodKind == [ CreateThing |-> "unary", GetThing |-> "unary", WatchThings |-> "server_streaming",
-                UploadThings |-> "client_streaming", ChatThings |-> "bidi", Nope |-> "unknown" ]
+                UploadThings |-> "client_streaming", ChatThings |-> "bidi", Nope |-> "unknown",
+                CheckDep |-> "unary" ]       \* CheckDep: its request message lives in an imported (dependency) package
 Selectors == DOMAIN MethodKind
 \* candidate field names of the request message and what is wrong with each (ok = satisfies every rule)
 FieldKind == [ request_id |-> "ok", opt_request_id |-> "ok", missing_field |-> "not_found", count |-> "not_string",
                req_id_required |-> "required", plain_str |-> "not_uuid4" ]
+\* the same names on the dependency-package request of CheckDep (it has request_id [UUID4], count, name and little else)
+DepFieldKind == [ request_id |-> "ok", opt_request_id |-> "not_found", missing_field |-> "not_found", count |-> "not_string",
+                  req_id_required |-> "not_found", plain_str |-> "not_found" ]
+KindOf(sel, f) == IF sel = "CheckDep" THEN DepFieldKind[f] ELSE FieldKind[f]
 \* a nested path names no top-level field
 NestedField == "inner.name"
 FieldNames == DOMAIN FieldKind \cup {NestedField}
@@ -33,8 +38,8 @@ Init == /\ settings \in {<<>>} \cup {<<e>> : e \in Entries}
                       \cup {<<e1, e2, e3>> : e1 \in Plain, e2 \in Plain, e3 \in Plain}
         /\ stage = "loaded" /\ outcome = "pending"
 
-FieldOk(f) == f # NestedField /\ FieldKind[f] = "ok"
-EntryOk(e) == MethodKind[e.selector] = "unary" /\ \A f \in e.fields : FieldOk(f)
+FieldOk(sel, f) == f # NestedField /\ KindOf(sel, f) = "ok"
+EntryOk(e) == MethodKind[e.selector] = "unary" /\ \A f \in e.fields : FieldOk(e.selector, f)
 \* an entry without auto-populated fields still has to name an existing method? The property speaks of entries
 \* "in auto_populated_fields"; entries with no fields are only subject to the duplicate and existence rules.
 EntryValid(e) == IF e.fields = {} THEN MethodKind[e.selector] # "unknown" ELSE EntryOk(e)
